@@ -343,7 +343,8 @@ def h_history_rays(sx):
 
 def obligations(tier):
     q = tier == 'quick'
-    sigma = SIGMA_2C if q else SIGMA_FULL
+    # plus an object with changeable state two levels deep in boxes (a copy that clones contents one level deep shares it)
+    sigma = list(SIGMA_2C if q else SIGMA_FULL) + [('Box(Box(Door(CLOSED,YELLOW)))', lambda: Box(Box(Door(Door.Status.CLOSED, Color.YELLOW))))]
     obs = []
     shp = shapes(2, 2) + [(1, 3), (3, 1)] if q else shapes(3, 3)
     for fname in list(SINGLE) + list(CHAINS):
